@@ -6,8 +6,8 @@ from .runner import Check
 
 BOUNDS = {
     # raw = token kinds incl. the four trivia kinds (WHITESPACE..=ERROR, 75 kinds): exercises the trivia re-interleaving
-    'quick':    {'raw': 3, 'raw_ctx': 1, 'lex': 6, 'pipeline': 2},
-    'thorough': {'raw': 4, 'raw_ctx': 2, 'lex': 8, 'pipeline': 3},
+    'quick':    {'raw': 3, 'raw_ctx': 1, 'lex': 6, 'pipeline': 2, 'deep': (1, 3)},
+    'thorough': {'raw': 4, 'raw_ctx': 2, 'lex': 8, 'pipeline': 3, 'deep': (2, 3)},
 }
 # contexts that matter for trivia placement: doc comments before fn / const / type / variant vs. other nodes
 RAW_CONTEXTS = [
@@ -41,6 +41,7 @@ def main(tier, seed):
                         nontrivial_classes=lambda c: c != 'ok-clean')
             synrun.confirm_violations(chk, res, oracle, sp, 'raw context %s' % name, props, raw=True)
             synrun.validate_samples(chk, res, oracle, sp, 'raw ctx %s/%d' % (name, si), raw=True)
+    synrun.deep_suite(chk, oracle, sp, jobs, props, B['deep'][0], B['deep'][1])
     synrun.lexer_suite(chk, oracle, sp, jobs, props, B['lex'], B['pipeline'])
     oracle.close()
     chk.assumptions += synrun.SYN_ASSUMPTIONS + ['texts with more raw tokens than the bound, and tokens longer than the lexer bound, are outside the claim']
